@@ -115,7 +115,7 @@ func (h *handler) getExpand(w http.ResponseWriter, r *http.Request, _ httprouter
 func (h *handler) Expand(ctx context.Context, req *rts.ExpandRequest) (*rts.ExpandResponse, error) {
 	var subSet *ketoapi.SubjectSet
 
-	switch sub := req.Subject.Ref.(type) {
+	switch sub := req.GetSubject().GetRef().(type) {
 	case *rts.Subject_Id:
 		return &rts.ExpandResponse{
 			Tree: &rts.SubjectTree{
@@ -129,6 +129,10 @@ func (h *handler) Expand(ctx context.Context, req *rts.ExpandRequest) (*rts.Expa
 			Object:    sub.Set.Object,
 			Relation:  sub.Set.Relation,
 		}
+	}
+
+	if subSet == nil {
+		return nil, herodot.ErrBadRequest.WithError("a subject is required")
 	}
 
 	internal, err := h.d.ReadOnlyMapper().FromSubjectSet(ctx, subSet)
